@@ -43,6 +43,7 @@ type Violation struct {
 	Replay     string `json:"replay,omitempty"`
 	Reproduced *bool  `json:"reproduced,omitempty"`
 	Known      bool   `json:"known"`
+	Foreign    bool   `json:"other_property_label,omitempty"`
 }
 
 type JobResult struct {
@@ -470,7 +471,12 @@ func finish(w *World, verifDir string, spec *PropSpec, cr *CheckResult, seed int
 			// an assertion labelled with another property's id belongs to that property's check
 			if l := jr.Violations[i].Label; len(l) > 4 && l[0] == 'C' && l[3] == '.' && l[:3] != spec.ID {
 				otherProps[l[:3]]++
-				continue
+				if !spec.AttributeByReplay {
+					continue
+				}
+				// harness family with a per-property native oracle: the counterexample counts for
+				// this property iff its native replay shows THIS property's oracle failing
+				jr.Violations[i].Foreign = true
 			}
 			viols = append(viols, &jr.Violations[i])
 		}
@@ -521,6 +527,7 @@ func finish(w *World, verifDir string, spec *PropSpec, cr *CheckResult, seed int
 			}
 		}
 		repro := false
+		foreignOnly := false
 		var path, out string
 		for i, v := range vs {
 			if i >= 2 {
@@ -529,6 +536,17 @@ func finish(w *World, verifDir string, spec *PropSpec, cr *CheckResult, seed int
 			ok, p, o := replayViolation(w, verifDir, spec, v)
 			replayed++
 			path, out = p, o
+			if ok && v.Foreign {
+				ok = false
+				for _, ln := range strings.Split(o, "\n") {
+					if strings.Contains(ln, "REPLAY: reproduced") && strings.Contains(ln, spec.ID+":") {
+						ok = true
+					}
+				}
+				if !ok {
+					foreignOnly = true
+				}
+			}
 			b := ok
 			v.Reproduced = &b
 			v.Replay = p
@@ -548,6 +566,8 @@ func finish(w *World, verifDir string, spec *PropSpec, cr *CheckResult, seed int
 			lines = append(lines, fmt.Sprintf("  signature: %s\n  %s", sig, vs[0].Msg))
 			nViol++
 			exit = 1
+		case foreignOnly || vs[0].Foreign:
+			// another property's obligation; its own check reports it
 		default:
 			tail := out
 			if len(tail) > 600 {
